@@ -34,6 +34,7 @@ import (
 type Meta struct {
 	Doc        specgen.Doc `json:"doc"`
 	TimeFormat string      `json:"time_format"`
+	Name       string      `json:"name,omitempty"` // corpus file name (corpus units)
 	// StatusTable: operation (Go name) → response wrapper type name → the status classes it serves
 	// ("2XX" … "5XX", "default"), taken from the generator's IR; Explicit lists the operation's explicit codes.
 	StatusTable map[string]map[string][]string `json:"status_table,omitempty"`
@@ -267,14 +268,15 @@ func runPackage(u *vk.Unit, p *reg.Package, meta Meta, pkg string) {
 		return
 	}
 	var st *state
-	call := func(ctx context.Context, iface, method string, args []any) ([]any, error) {
+	call := securityAware(p, func(ctx context.Context, iface, method string, args []any) ([]any, error) {
 		if iface != reg.IfaceHandler || st == nil {
 			return nil, nil
 		}
 		st.handlerCalls++
 		st.handlerArgs = args
 		return st.response, st.respErr
-	}
+	})
+	ignoreTime = meta.Name != "" // corpus documents mix time formats that reflection cannot tell apart
 	mw := func(req middleware.Request, next middleware.Next) (middleware.Response, error) {
 		if st != nil {
 			st.mwCalls++
@@ -298,7 +300,7 @@ func runPackage(u *vk.Unit, p *reg.Package, meta Meta, pkg string) {
 	}
 	ts := httptest.NewServer(srv)
 	defer ts.Close()
-	cli, err := p.NewClient(ts.URL, reg.ClientConfig{HTTPClient: capture{c: ts.Client(), st: &st}})
+	cli, err := p.NewClient(ts.URL, reg.ClientConfig{Call: call, HTTPClient: capture{c: ts.Client(), st: &st}})
 	if err != nil {
 		u.T.Fatalf("client: %v", err)
 	}
@@ -384,6 +386,35 @@ func runPackage(u *vk.Unit, p *reg.Package, meta Meta, pkg string) {
 				u.LabelN("unsupported:"+k, c)
 			}
 		}
+	}
+}
+
+var ignoreTime bool
+
+// securityAware wraps a handler CallFn so that documents with security schemes work: every
+// SecuritySource supplies a non-empty credential, every SecurityHandler accepts.
+func securityAware(p *reg.Package, inner reg.CallFn) reg.CallFn {
+	return func(ctx context.Context, iface, method string, args []any) ([]any, error) {
+		switch iface {
+		case reg.IfaceSecurityHandler:
+			return []any{ctx}, nil
+		case reg.IfaceSecuritySource:
+			for _, m := range p.Interfaces[reg.IfaceSecuritySource] {
+				if m.Name == method && len(m.Results) > 0 {
+					v := reflect.New(m.Results[0]).Elem()
+					if v.Kind() == reflect.Struct {
+						for i := 0; i < v.NumField(); i++ {
+							if v.Field(i).Kind() == reflect.String && v.Field(i).CanSet() {
+								v.Field(i).SetString("cred" + method)
+							}
+						}
+					}
+					return []any{v.Interface()}, nil
+				}
+			}
+			return nil, nil
+		}
+		return inner(ctx, iface, method, args)
 	}
 }
 
@@ -502,7 +533,7 @@ func exchange(u *vk.Unit, p *reg.Package, m reg.Method, cm reflect.Value, args [
 	}
 	for i, a := range args {
 		got := reflect.ValueOf(st.handlerArgs[i])
-		if ok, where := valgen.Equal(a, got, valgen.EqOpts{NilEqualsEmpty: true}); !ok {
+		if ok, where := valgen.Equal(a, got, valgen.EqOpts{NilEqualsEmpty: true, IgnoreTime: ignoreTime}); !ok {
 			cl := "silent-change"
 			switch {
 			case strings.Contains(where, ": float ") && isParamsArg(a):
@@ -578,7 +609,7 @@ func exchange(u *vk.Unit, p *reg.Package, m reg.Method, cm reflect.Value, args [
 		return nil // hostile or invalid response: an error is the allowed outcome
 	}
 	got := out[0]
-	if ok, where := valgen.Equal(resp, got, valgen.EqOpts{NilEqualsEmpty: true}); !ok {
+	if ok, where := valgen.Equal(resp, got, valgen.EqOpts{NilEqualsEmpty: true, IgnoreTime: ignoreTime}); !ok {
 		cl := "response-silent-change"
 		switch {
 		case strings.Contains(where, ": float ") && !strings.Contains(where, ".Response"):
